@@ -24,7 +24,7 @@ MC_CONSTANTS = {
         "FeeGridKinds": _set(["Script"]),
         "FeeGridSgl": _set(["9223372036854775808"]),
         "GasScheds": _set(["default", "mixed", "huge"]),
-        "GasGpb": _set(["0", "63", "18446744073709551615"]),
+        "GasGpb": _set(["63", "18446744073709551615"]),
         "GasVals": _set(["0", "1000", "18446744073709551615"]),
         "GasSgl": _set(["0", "1000000"]),
         "WlModes": _set(["zero", "below", "at", "above", "max"]),
@@ -54,8 +54,8 @@ RULE = ("model: TLC evaluates the Fee specification (exact BigNat arithmetic) on
         "all 7 enum versions), every result validated by TLC. distinct = distinct replay points with a non-zero max fee + "
         "distinct (kind, schedule, min_gas, max_gas, min_fee, max_fee) tuples with non-zero max fee in the traces")
 
-PROPERTIES_WIP = ["C18"]
-MANIFEST_WIP = {
+PROPERTIES = ["C18"]
+MANIFEST = {
     "C18": dict(category="model_checking",
                 technique="TLA+ specification of the fee formulas with exact integers (BigNat) model-checked by TLC on a boundary "
                           "grid; TLC-predicted values for grid points x real transaction shapes replayed into fuel-tx/fuel-vm; "
